@@ -22,6 +22,8 @@ def show(node):
         if node[2] is None:
             return f"C({node[1]})"
         return f"C({node[1]},{'s' if node[3] else 'u'}{node[2]})"
+    if k == "pyint":
+        return f"int({node[1]})"
     if k in UNARY:
         return f"{k}({show(node[1])})"
     if k in BINARY:
@@ -88,6 +90,8 @@ def build(node, sigs):
         return B(node[1]).as_signed()
     if k == "as_unsigned":
         return B(node[1]).as_unsigned()
+    if k == "pyint":
+        return node[1]            # a plain Python integer: the other operand's (reflected) operator method does the cast
     if k in BINARY:
         a, b = B(node[1]), B(node[2])
         return {"add": lambda: a + b, "sub": lambda: a - b, "mul": lambda: a * b, "floordiv": lambda: a // b,
@@ -179,6 +183,32 @@ def extension_programs():
                 out.append(["mux", sig("c", (1, False)), inner, b])
                 out.append(["cat", [inner, b]])
                 out.append(["array", [inner, b], sig("c", (1, False))])
+    return out
+
+
+def reflected_programs():
+    """Binary operators with a plain Python int on either side (the reflected __r*__ methods), and reductions / unary operators
+    of values whose top or bottom bits are constant zeros (back ends trim such operands)."""
+    out = []
+    for sa in ((3, False), (3, True), (4, True)):
+        a = sig("a", sa)
+        for v in (0, 1, 3, -2, 10, -8):
+            n = ["pyint", v]
+            for k in ("add", "sub", "mul", "floordiv", "mod", "and", "or", "xor", "eq", "ne", "lt", "le", "gt", "ge"):
+                out.append([k, n, a])
+                out.append([k, a, n])
+            if v >= 0:
+                out.append(["shl", a, n])
+                out.append(["shr", a, n])
+            if not sa[1]:
+                out.append(["shl", n, a])
+                out.append(["shr", n, a])
+        z1, z2 = ["const", 0, 1, False], ["const", 0, 2, False]
+        padded = [["cat", [a, z1]], ["cat", [a, z2]], ["cat", [z1, a]], ["cat", [z1, a, z1]], ["as_unsigned", a], ["add", a, ["const", 0, 1, False]],
+                  ["cat", [a, ["const", 1, 1, False]]], ["mux", ["const", 0, 1, False], a, ["cat", [a, z1]]]]
+        for p_ in padded:
+            for k in ("all", "any", "xorr", "bool", "neg", "inv", "abs"):
+                out.append([k, p_])
     return out
 
 
